@@ -392,7 +392,12 @@ TEXT = {
           "taken with every field non-zero and compared field by field by reflection, in hash and in serialised bytes, and "
           "blocks published through the JSON parameter of PublishRawTransaction on a real node are stored byte for byte.",
   "design_ref": "§3 C13",
-  "note": "Hash function is a parameter; T2 (stored bytes are a function of covered fields and state) is not a theorem: it is "
+  "note": "Hash function is a parameter; T2 (stored bytes are a function of covered fields and state) is a theorem over the "
+          "model of Supervisor.ApplyBlock for a delivered block (Model/Accept.lean, Props/C13Accept.lean: user blocks equal except the "
+          "named residue ChangesHash = F9 and Signature = key holder, with negative witnesses; a contract receive is stored as the "
+          "regenerated block; the assignments to / reads of uncovered fields in vm/ and verifier/ are regenerated from the AST and "
+          "pinned; the gossip deliveries of the variants stream are replayed through the model: accepted / refused and stored equal / "
+          "different), for the other delivery paths it is "
           "decided on real nodes by the `variants` stream (every alteration of every field the hash does not cover, for user "
           "blocks, contract blocks and momentums, delivered to a follower before the honest data - generated contract blocks also by "
           "gossip with their empty key fields filled - and AFTER the follower verified the original and lost it in a reorganisation; "
